@@ -10,6 +10,7 @@
 package main
 
 import (
+	"bytes"
 	"encoding/hex"
 	"fmt"
 	"github.com/oasisprotocol/oasis-core/go/common/entity"
@@ -151,6 +152,15 @@ func runCase(c chainsim.Case, rep chainsim.Reporter, scratch string) {
 				m := append([]byte(nil), victim.Raw...)
 				m[i] ^= 1 << uint(rng.IntN(8))
 				out = append(out, &chainsim.GenTx{Raw: m, Method: victim.Method, Intent: "bitflip", Signer: victim.Signer})
+			}
+			// Every bit of the stated public key (256 variants): key bits have meanings of their
+			// own (the top bit of the last byte is the sign of x), so none is left to the PRNG.
+			if i := bytes.Index(victim.Raw, victim.Signer.PK[:]); i >= 0 {
+				for b := 0; b < 256; b++ {
+					m := append([]byte(nil), victim.Raw...)
+					m[i+b/8] ^= 1 << uint(b%8)
+					out = append(out, &chainsim.GenTx{Raw: m, Method: victim.Method, Intent: "bitflip", Signer: victim.Signer})
+				}
 			}
 			attacks["bitflip"] += len(out)
 		case 1:
